@@ -427,8 +427,13 @@ def _run_family(family, opts):
         res["status"] = "inconclusive"
         res["reason"] = f"family exceeded {hard_s}s"
     except Exception as e:
-        res["status"] = "error"
-        res["reason"] = f"harness error: {type(e).__name__}: {str(e)[:300]}"
+        if "FamilyTimeout" in f"{type(e).__name__}{e}":
+            # the alarm fired inside a native callback
+            res["status"] = "inconclusive"
+            res["reason"] = f"family exceeded {hard_s}s"
+        else:
+            res["status"] = "error"
+            res["reason"] = f"harness error: {type(e).__name__}: {str(e)[:300]}"
         res["trace"] = traceback.format_exc()[-2000:]
     finally:
         signal.alarm(0)
